@@ -159,7 +159,22 @@ def nested_assertions(model):
     return any(getattr(m, "_assertions", None) for m in c03.reachable_models(model)[1:])
 
 
+def holds_model_instance(model):
+    from autofit.mapper.model import ModelInstance
+
+    def walk(o, depth=0):
+        if isinstance(o, ModelInstance):
+            return True
+        if depth > 6 or not hasattr(o, "__dict__"):
+            return False
+        return any(walk(v, depth + 1) for k, v in vars(o).items() if not str(k).startswith("_"))
+
+    return walk(model)
+
+
 def classify(comp, model, route, what):
+    if holds_model_instance(model) and not route.startswith("pickle"):
+        return "C08-modelinstance-member"
     has_extra_on_fixed = any(
         isinstance(m, af.Model) and m.prior_count == 0 and any(k not in m.constructor_argument_names for k, _ in X.public_items(m))
         for m in c03.reachable_models(model)
